@@ -242,7 +242,7 @@ func collude(c *vf.Ctx, ri, k, n int) {
 	c.Count("collude_class/"+class, 1)
 	if s.maxLib[0] > 0 {
 		c.Count("runs_with_lib_advance", 1)
-		for k := range s.trace {
+		for k := 0; k < s.obs; k++ {
 			c.Nontrivial(fmt.Sprintf("%s|%d", name, k))
 		}
 	}
